@@ -10,6 +10,7 @@ pub fn dump<'tcx>(cx: &Cx<'tcx>) -> J {
     let mut adts = Vec::new();
     let mut impls = Vec::new();
     let mut statics = Vec::new();
+    let mut consts = Vec::new();
     let mut traits = Vec::new();
     let sm = tcx.sess.source_map();
     for ldid in tcx.hir_crate_items(()).definitions() {
@@ -102,6 +103,22 @@ pub fn dump<'tcx>(cx: &Cx<'tcx>) -> J {
                 }
                 statics.push(J::Obj(o));
             }
+            DefKind::Const { .. } => {
+                // scalar constants (no generics): const-evaluated bits, so that tables can check their values
+                let ty = tcx.type_of(did).instantiate_identity().skip_norm_wip();
+                if tcx.generics_of(did).count() == 0 && (ty.is_floating_point() || ty.is_integral() || ty.is_bool()) {
+                    if let Ok(v) = tcx.const_eval_poly(did) {
+                        if let Some(sc) = v.try_to_scalar_int() {
+                            let bits = sc.to_bits(sc.size());
+                            consts.push(J::Obj(vec![
+                                ("path", J::s(cx.path(did))),
+                                ("ty", J::s(cx.ty(ty))),
+                                ("bits", J::s(format!("{bits}"))),
+                            ]));
+                        }
+                    }
+                }
+            }
             DefKind::Trait => {
                 let items: Vec<J> = tcx
                     .associated_items(did)
@@ -117,6 +134,7 @@ pub fn dump<'tcx>(cx: &Cx<'tcx>) -> J {
         ("adts", J::Arr(adts)),
         ("impls", J::Arr(impls)),
         ("statics", J::Arr(statics)),
+        ("consts", J::Arr(consts)),
         ("traits", J::Arr(traits)),
     ])
 }
